@@ -35,7 +35,7 @@ CONSTANTS
                \*   must leave the association, its deadline and its socket as they are
   DisarmFirst, \* TRUE = the code: onWrite disarms the fast-close latch BEFORE it extends the deadline; FALSE = the two
                \*   steps swapped (negative control: a port-53 reply read in between then moves the deadline earlier)
-  Fam,         \* [Senders -> {"v4","v6","zoned"}]
+  Fam,         \* [Senders -> {"v4","v6","zoned"}] (+ "name9", "name14": destinations named by a host name of that length)
   DgAlpha,     \* datagrams clients may send: set of [c, k, hdr, dst, cls]; k = 0: authenticates under no configured
                \*   key (unknown key / truncated / garbage); hdr = FALSE: malformed address header;
                \*   cls \in {"0","1","1000","max"} payload size class
@@ -76,7 +76,8 @@ Tag == 16
 MaxWire == 65507          \* largest UDP payload on IPv4
 BufSz == 65536            \* serverUDPBufferSize
 MaxAddrLen == 19          \* udp.go:388
-HdrLen(s) == IF Fam[s] = "v4" THEN 7 ELSE 19
+\* SOCKS address header: type 1 (IPv4) 1+4+2, type 4 (IPv6) 1+16+2, type 3 (host name of n bytes, Fam = "name<n>") 1+1+n+2
+HdrLen(s) == CASE Fam[s] = "v4" -> 7 [] Fam[s] = "name9" -> 13 [] Fam[s] = "name14" -> 18 [] OTHER -> 19
 Max(a, b) == IF a > b THEN a ELSE b
 Range(s) == {s[i] : i \in 1..Len(s)}
 IsDns(s) == s \in DnsPort
@@ -402,6 +403,10 @@ FwdAuthentic == \A e \in Range(outT) :
                   /\ LET d == Dg(e.did) IN
                        /\ Valid(d) /\ e.dst = d.dst /\ e.p = d.id /\ e.sz = d.sz
                        /\ \E m \in Adds : m.a = e.a /\ m.key = d.k /\ m.c = d.c
+\* the routing clause of FwdAuthentic on its own: whatever a target receives was addressed - in the address header of THAT
+\* datagram - to this very target (not to the target of an earlier datagram of the association, not to another port of the
+\* same host, not to another name); together with FwdOnce: no other target receives it
+FwdToNamed == \A e \in Range(outT) : e.did \in 1..Len(sentC) => e.dst = Dg(e.did).dst
 \* at most one copy of each client datagram is forwarded
 FwdOnce == \A i, j \in 1..Len(outT) : outT[i].did = outT[j].did => i = j
 \* replies: key of the association, header = the true sender, payload identical, delivered once
